@@ -386,8 +386,11 @@ func WGWait(w *sync.WaitGroup, site string) {
 func longLived(site string) bool {
 	i := strings.LastIndex(site, ":")
 	callee := site[i+1:]
-	if callee == "func" {
+	if callee == "func-loop" { // a function literal with an endless loop, a select or a channel receive
 		return true
+	}
+	if callee == "func" {
+		return false
 	}
 	for _, w := range []string{"loop", "Loop", "receiveMessage", "logChannel", "waitUntilDone", "Sync", "sync", "requestBlockChainPiece", "triggerOnFork", "growRing"} {
 		if strings.Contains(callee, w) {
